@@ -15,6 +15,8 @@ ROOT = '/var/tmp/rva-selftest'
 
 
 def main(args):
+    record = '--record' in args     # write result.json from this run instead of comparing with it
+    args = [a for a in args if a != '--record']
     seeds = sorted(glob.glob(os.path.join(VERIF, 'seeded', 'C*-*')))
     if args:
         seeds = [s for s in seeds if os.path.basename(s) in args]
@@ -31,7 +33,8 @@ def main(args):
         for d in seeds:
             sid = os.path.basename(d)
             meta = json.load(open(os.path.join(d, 'meta.json')))
-            want = json.load(open(os.path.join(d, 'result.json'))).get(meta['property'], {}).get('exit')
+            rj = os.path.join(d, 'result.json')
+            want = json.load(open(rj)).get(meta['property'], {}).get('exit') if os.path.exists(rj) else None
             subprocess.run(['rsync', '-a', '--delete', '--exclude', '/target', '--exclude', '.git', '/repo/', repo + '/'], check=True)
             r = subprocess.run(['patch', '-p1', '-s', '-i', os.path.join(d, 'patch.diff')], cwd=repo, capture_output=True, text=True)
             if r.returncode != 0:
@@ -40,6 +43,10 @@ def main(args):
             env = dict(os.environ, VERIF_REPO=repo, VERIF_RUNNER_DIR=runner, VERIF_SELFTEST='1')
             c = subprocess.run([os.path.join(VERIF, 'check'), meta['property'], '--tier', 'quick'], capture_output=True, text=True, env=env, cwd=VERIF)
             got = c.returncode
+            if record:
+                lines = [l.replace('/var/tmp/rva-selftest/out', '/verif') for l in c.stdout.splitlines() if l.startswith(('VIOLATION', 'UNDECIDED', 'OK', 'KNOWN-FINDING'))]
+                json.dump({meta['property']: {'exit': got, 'lines': lines, 'on': 'scratch copy of /repo (check selftest --record)'}}, open(rj, 'w'), indent=1)
+                want = got
             verdict = {0: 'not seen', 1: 'caught', 2: 'undecided'}.get(got, str(got))
             ok = (got == want)
             bad += 0 if ok else 1
